@@ -250,8 +250,9 @@ Dangling(c, R, em) == {x \in Mods \ R : em \in c[x].links}
 Mechanisms(c, s, R, em, u) ==
     LET spec  == SpecObs(text)
         impl  == [diag |-> s.diag, syms |-> [m \in Mods |-> SymsOf(m, c[m].typed)], refs |-> s.tok]
-        \* typed forms of an older text; named only when something observable differs
-        Stale == IF impl = spec THEN {} ELSE {x \in Mods : c[x].typed # text[x].items}
+        \* modules whose last edit was not committed (the server still holds the typed form and the diagnostics of
+        \* an older text); named only when something observable differs
+        Stale == IF impl = spec THEN {} ELSE {x \in Mods : c[x].typed # text[x].items \/ u[x] # "ok"}
         lost(x) == ~(TcDiag(x, text[x].items, Cur) \subseteq s.diag)
     IN  {"CancelledEditStaleTyped" : x \in {y \in Stale : u[y] = "cancelled"}}
         \cup {"FailedEditStaleTyped" : x \in {y \in Stale : u[y] # "cancelled"}}
